@@ -528,11 +528,31 @@ class Interp:
             pass
         self.exec_block(st.finalbody, fr)
 
+    def loop_tag(self, func, node):
+        """static tag of a loop inside its function: kind#ordinal in source order"""
+        tags = getattr(func, "_loop_tags", None)
+        if tags is None:
+            tags = {}
+            counts = {}
+            nodes = [n for n in ast.walk(func.node)
+                     if isinstance(n, (ast.For, ast.While, ast.ListComp, ast.GeneratorExp, ast.SetComp, ast.DictComp))]
+            nodes.sort(key=lambda n: (n.lineno, n.col_offset))
+            for n in nodes:
+                kind = "for" if isinstance(n, ast.For) else "while" if isinstance(n, ast.While) else "comp"
+                i = counts.get(kind, 0)
+                counts[kind] = i + 1
+                tags[id(n)] = f"{kind}#{i}"
+            func._loop_tags = tags
+        return tags.get(id(node))
+
+    def find_spec(self, fr, node):
+        if fr.func is None or not self.loop_specs:
+            return None
+        tag = self.loop_tag(fr.func, node)
+        return self.loop_specs.get((fr.func.qualname, tag))
+
     def s_While(self, st, fr):
-        ordinal = next(fr.loop_ordinal)
-        spec = self.loop_specs.get((fr.func.qualname, f"while#{ordinal}")) or self.loop_specs.get(
-            (fr.func.qualname, ordinal)
-        )
+        spec = self.find_spec(fr, st)
         if spec is not None:
             return spec(self, st, fr)
         n = 0
@@ -552,14 +572,11 @@ class Interp:
         self.exec_block(st.orelse, fr)
 
     def s_For(self, st, fr):
-        ordinal = next(fr.loop_ordinal)
-        spec = self.loop_specs.get((fr.func.qualname, f"for#{ordinal}")) or self.loop_specs.get(
-            (fr.func.qualname, ordinal)
-        )
+        spec = self.find_spec(fr, st)
         if spec is not None:
             return spec(self, st, fr)
         it = self.eval(st.iter, fr)
-        seq = self.concrete_iter(it, what=f"for loop in {fr.func.qualname} (ordinal {ordinal})")
+        seq = self.concrete_iter(it, what=f"for loop in {fr.func.qualname} ({self.loop_tag(fr.func, st)})")
         broke = False
         for v in seq:
             self.assign(st.target, v, fr)
@@ -1148,12 +1165,11 @@ class Interp:
         if len(gens) == 1 and not gens[0].ifs:
             f2 = Frame(fr.func, dict(fr.locals))
             it = self.eval(gens[0].iter, f2)
+            spec = self.find_spec(fr, e)
+            if spec is not None:
+                return spec(self, e, fr, it)
             symlen = self.symbolic_length(it)
             if symlen is not None:
-                ordinal = f"comp@{e.lineno}"
-                spec = self.loop_specs.get((fr.func.qualname, "comp#" + ast.unparse(e.elt)))
-                if spec is not None:
-                    return spec(self, e, fr, it)
                 return self._comp_map(e, fr, it, symlen)
         out = []
 
@@ -1210,6 +1226,8 @@ class Interp:
     def iter_at(self, it, i):
         if isinstance(it, SymRange):
             return it.at(i)
+        if isinstance(it, range):
+            return S.add(it.start, S.mul(i, it.step))
         if isinstance(it, SymList):
             return it.at(i)
         if isinstance(it, Tensor):
